@@ -31,3 +31,7 @@ Definition chk_mayinv_prop (p : (list tm * list tm) * list tm) : bool * (bool * 
   let '((new, cur), g') := p in (variant_list g' cur, (instance_of_list new cur, repeats_var cur)).
 Definition b3_eqb (a b : bool * (bool * bool)) : bool :=
   Bool.eqb (fst a) (fst b) && Bool.eqb (fst (snd a)) (fst (snd b)) && Bool.eqb (snd (snd a)) (snd (snd b)).
+
+Definition chk_variant (p : list tm * list tm) : bool := variant_list (fst p) (snd p).
+Definition chk_inst_list (p : list tm * list tm) : bool := instance_of_list (fst p) (snd p).
+Definition chk_repeats (cur : list tm) : bool := repeats_var cur.
